@@ -35,7 +35,17 @@ def gen_system(rng):
             m = rng.uniform(1e-3, 2)
         ms.append(m)
     sc = 10 ** rng.uniform(-3, 3)
+    u = rng.random()
+    if u < 0.08: sc = 10 ** rng.uniform(-140, 140)          # far from 1, still clear of overflow in m*x sums
     vals = {c: [rng.gauss(0, 1) * sc for _ in range(n)] for c in COMPS}
+    # degenerate configurations: coincident bodies, everything at the origin / at rest, signed zeros, equal masses
+    v = rng.random()
+    if v < 0.05:
+        for c in COMPS: vals[c] = [vals[c][0]] * n
+    elif v < 0.09:
+        for c in rng.sample(COMPS, rng.randint(1, len(COMPS))): vals[c] = [rng.choice([0.0, -0.0]) for _ in range(n)]
+    elif v < 0.12:
+        ms = [ms[0]] * n
     return n, na, ms, vals
 
 
@@ -328,6 +338,54 @@ def run(ctx):
                 oracle_fail.append({"system": system, "N": n, "N_active": na, "masses": [x.hex() for x in ms], "pos_variant_disagrees": var_bad,
                                     "values": {c: [x.hex() for x in vals[c]] for c in P3 + V3},
                                     "roundtrip_error": worst, "tolerance": tol, "slot0": com_bad, "mass_bad": m_bad})
+    # ---- the split with NO active particle (N_active = 0; the library produces it when the only active particle is
+    # removed): for the Jacobi family particle 0 is the reference body whatever the flag says, so the result must be the
+    # one for N_active = 1, bit for bit with the model (whose na-1 is a natural-number subtraction) and a round trip.
+    # In a child process: a library that runs out of bounds here dies with SIGSEGV.
+    import json as _json, subprocess as _sp
+    na0 = []
+    for k in range(ctx.scale(12, 60)):
+        n, _, ms, vals = gen_system(rng)
+        na0.append({"n": n, "ms": [m.hex() for m in ms], "vals": {c: [v.hex() for v in vals[c]] for c in COMPS}})
+    na0_terms = []
+    try:
+        r = vlib.run_py(libdir, os.path.join(os.path.dirname(os.path.abspath(__file__)), "c12_na0_driver.py"), [libdir],
+                        timeout=120, input=_json.dumps(na0))
+        died = r.returncode != 0
+        detail = "exit %s: %s" % (r.returncode, (r.stderr or "")[-300:])
+    except _sp.TimeoutExpired:
+        died, detail, r = True, "did not return within 120 s", None
+    if died:
+        oracle_fail.append({"system": "jacobi:N_active=0", "N": na0[0]["n"], "N_active": 0, "masses": na0[0]["ms"], "values": na0[0]["vals"],
+                            "what": "reb_particles_transform_inertial_to_jacobi_posvelacc / jacobi_to_inertial_{posvel,pos,acc} called with "
+                                    "N_active = 0 did not return (child process %s)" % detail})
+    else:
+        res = _json.loads(r.stdout)
+        for s_, o_ in zip(na0, res):
+            n = s_["n"]; ms = [float.fromhex(x) for x in s_["ms"]]
+            vals = {c: [float.fromhex(x) for x in s_["vals"][c]] for c in COMPS}
+            ctx.case(key=("jacobi-na0", n))
+            fwd = [[float.fromhex(x) for x in row] for row in o_["fwd"]]
+            msl = vlib.flist(ms)
+            na0_terms.append(("jacF9-na0", "(jacF %s %s 0)" % (msl, ll([vals[c] for c in COMPS])),
+                              [fwd[i][j] for j in range(9) for i in range(n)] + [float.fromhex(o_["m0"])], (n, 0)))
+            scale = max(abs(vals[c][i]) for c in COMPS for i in range(n)) or 1.0
+            tol = 64 * 2.2e-16 * scale * (n + 4)
+            for name, comps in (("posvel", COMPS[:6]), ("pos", COMPS[:3]), ("acc", COMPS[6:])):
+                back = [[float.fromhex(x) for x in row] for row in o_["back_" + name]]
+                na0_terms.append(("jacI-%s-na0" % name,
+                                  "(jacI %s %s %s 0)" % (msl, ll([[fwd[i][COMPS.index(c)] for i in range(n)] for c in comps]), vlib.fhex(float.fromhex(o_["m0"]))),
+                                  [back[i][j] for j in range(len(comps)) for i in range(n)], (n, 0)))
+                worst = max(abs(back[i][j] - vals[c][i]) for j, c in enumerate(comps) for i in range(n))
+                if not worst <= tol:
+                    oracle_fail.append({"system": "jacobi:N_active=0:" + name, "N": n, "N_active": 0, "masses": s_["ms"], "values": s_["vals"],
+                                        "roundtrip_error": worst, "tolerance": tol})
+        bodyh = ("From Coq Require Import List PrimFloat ZArith.\nFrom RV Require Import Common.FloatNum C12.Run.\nImport ListNotations.\nOpen Scope float_scope.\n")
+        body = bodyh + "Definition cases : list (list float * list float) := [\n" + ";\n".join("(%s, %s)" % (t, vlib.flist(e)) for _, t, e, _ in na0_terms) + "].\nEval vm_compute in (bad_cases cases).\n"
+        (name_, ok_, out_), = vlib.coq_eval_many([("c12_na0", body)])
+        bad_ = vlib.parse_coq_list_nat(out_) if ok_ else None
+        ctx.obligation("correspondence:C12 Jacobi family with N_active = 0: model(binary64) == library bit-for-bit on %d calls" % len(na0_terms),
+                       bad_ == [], "mismatching: %s" % ([na0_terms[b][0] for b in (bad_ or [])][:8] if bad_ is not None else out_[-800:]))
     # ---- the transformations as the integrators apply them: a zero-length WHFast/SABA step is nothing but
     # inertial -> internal coordinates -> inertial (real and variational particles), and a run with semi-active
     # (type 1) particles but no test-test pair is the all-active run
@@ -338,10 +396,10 @@ def run(ctx):
                       "round trip / centre-of-mass slot of the %s transformation fails on the library" % o["system"])
     elif not (corr_ok and not bad_total) or not proved:
         pass   # finish() reports the broken obligation with no-failing-input-found
-    ctx.rule = ("random systems N in 1..30, N_active in 1..N, masses incl. 0 and ratios to 1e-12, 16 exported transformation "
+    ctx.rule = ("random systems N in 1..30, N_active in 1..N (and 0 for the Jacobi family, in a child process), masses incl. 0 and ratios to 1e-12, magnitudes 1e-140..1e140, coincident / all-zero / signed-zero / equal-mass configurations, 16 exported transformation "
                 "variants; a case is distinct by (variant, N, N_active); all cases exercise loops (non-trivial) when N>1")
     ctx.assumptions += [
         "theorems are over Coq reals (exact arithmetic); the binary64 instance of the same Gallina term is what is compared with the C code",
-        "hypotheses of the theorems: 1 <= N_active <= N and non-zero partial mass sums (zero-mass bodies allowed)",
+        "hypotheses of the theorems: 1 <= N_active <= N and non-zero partial mass sums (zero-mass bodies allowed); N_active = 0 is covered for the Jacobi family (it is the N_active = 1 routine: C12_jacobi_no_active_particle); for DH/WHDS/barycentric N_active = 0 means zero total mass, where the centre of mass is undefined and the routines return NaN",
         "the lift from one scalar component to the particle array is part of the trusted model glue (coq/C12/Run.v), validated by the bit-exact comparison",
     ]
